@@ -31,7 +31,7 @@ def run(ctx, res):
             w = f['witness']
             if Lark(w['grammar'], parser='earley', lexer=w['lexer'], ambiguity='forest').parse(w['text']).is_ambiguous:
                 res.known_hits.append(('F20', '%s: %r on %r has one derivation, root.is_ambiguous is True' % (f['what'], w['grammar'], w['text'])))
-    jobs, outs = forestlib.forest_stream(ctx, 20, {'c20'}, 260, 6000, prio=True)
+    jobs, outs = forestlib.forest_stream(ctx, 20, {'c20'}, 1200, 20000, prio=True)
     for job, rec in problems(res, jobs, outs, 'building/walking the forest'):
         if 'gerr' in rec:
             res.count('grammar_error'); continue
